@@ -92,7 +92,10 @@ def strip(r):
     return r
 
 
-def sub(roots):
+def sub(roots, field=None):
+    """Sub-objects of `roots`; `field` = first-level attribute through which
+    they are reached (None = unknown / any)."""
+    fs = frozenset([field]) if field else None
     out = set()
     for r in roots:
         if r == FRESH:
@@ -100,8 +103,15 @@ def sub(roots):
         elif r[0] == "sub":
             out.add(r)
         else:
-            out.add(("sub", r))
+            out.add(("sub", r, fs))
     return out
+
+
+def fields_of(r):
+    """Field tag of a sub root (None = any), or () for an identity root."""
+    if r[0] == "sub":
+        return r[2]
+    return ()
 
 
 def plain(roots):
@@ -312,26 +322,27 @@ class FuncCtx:
                 b = ("o", scope.key, FRESH)
             elif b[0] not in ("glob", "unk", "o"):
                 b = ("o", scope.key, b)
-            out.add(("sub", b) if issub else b)
+            out.add(("sub", b, r[2]) if issub else b)
         return out
 
     def _collect_stores(self):
+        """local name -> [(first-level field | None, stored value expr)]"""
         sf = self.store_facts
         for n in own_nodes(self.f):
             if isinstance(n, (ast.Assign, ast.AugAssign, ast.AnnAssign)):
                 targets = n.targets if isinstance(n, ast.Assign) else [n.target]
                 for t in targets:
-                    base = _base_name(t)
+                    base, fld = _base_field(t)
                     if base is not None and not isinstance(t, ast.Name) \
                             and n.value is not None:
-                        sf.setdefault(base, []).append(n.value)
+                        sf.setdefault(base, []).append((fld, n.value))
             elif isinstance(n, ast.Call) and isinstance(n.func, ast.Attribute) \
                     and n.func.attr in ("append", "insert", "extend", "add",
                                         "update", "setdefault", "appendleft"):
-                base = _base_name(n.func.value)
+                base, fld = _base_field(n.func.value)
                 if base is not None:
                     for a in n.args:
-                        sf.setdefault(base, []).append(a)
+                        sf.setdefault(base, []).append((fld, a))
 
     def reach(self, node):
         return plain(self.R(node)) | self.H(node)
@@ -344,7 +355,7 @@ class FuncCtx:
                                              ast.UnaryOp)):
             return set()
         if isinstance(node, ast.Name):
-            return self._name_R(node.id, path)
+            return self._name_R(node.id, path, node)
         if isinstance(node, ast.Attribute):
             return self._attr_R(node)
         if isinstance(node, ast.Subscript):
@@ -401,7 +412,7 @@ class FuncCtx:
                                              ast.UnaryOp)):
             return set()
         if isinstance(node, ast.Name):
-            return self._name_H(node.id)
+            return self._name_H(node.id, node)
         if isinstance(node, (ast.Tuple, ast.List, ast.Set)):
             out = set()
             for e in node.elts:
@@ -442,22 +453,22 @@ class FuncCtx:
             return self.H(node.value)
         return set()
 
-    def _name_R(self, name, path):
+    def _name_R(self, name, path, node=None):
         f = self.f
-        key = (name, path)
+        facts, is_param = self.ty.facts_at(f, name, node)
+        allf = self.facts.get(name, [])
+        key = (name, path, frozenset(id(x) for x in facts), is_param)
         if key in self.envR:
             return set(self.envR[key])
         self.envR[key] = set()
         out = set()
-        facts = self.facts.get(name, [])
-        is_param = name in f.all_param_names()
         if is_param:
             pt = T.flat(self.ty.param_shape(f, name))
             if f.kind == "class" and f.params and name == f.params[0] and f.cls:
                 out.add(("glob", f.cls.name))
             elif not (pt and pt <= T.IMMUTABLE):
-                out.add(("sub", ("p", name)) if path else ("p", name))
-        if not facts and not is_param:
+                out.add(("sub", ("p", name), None) if path else ("p", name))
+        if not allf and name not in f.all_param_names():
             out |= self._free_R(name, path)
         for _ in range(6):
             before = set(out)
@@ -470,20 +481,20 @@ class FuncCtx:
                     out |= self._elem_R(value, full)
             if out == before:
                 break
-        vt = self.ty.var(f, name)
+        vt = self.ty.var(f, name, node)
         if not path and vt and vt <= T.IMMUTABLE:
             out = set()
         self.envR[key] = set(out)
         return out
 
-    def _name_H(self, name):
-        key = name
+    def _name_H(self, name, node=None, field=None):
+        facts, is_param = self.ty.facts_at(self.f, name, node)
+        key = (name, frozenset(id(x) for x in facts), field)
         if key in self.envH:
             return set(self.envH[key])
         self.envH[key] = set()
         out = set()
-        facts = self.facts.get(name, [])
-        if not facts and name not in self.f.all_param_names():
+        if not self.facts.get(name) and name not in self.f.all_param_names():
             out |= self._free_H(name)
         for _ in range(6):
             before = set(out)
@@ -495,8 +506,9 @@ class FuncCtx:
                     out |= self.reach(value)
                 elif kind == "elem":
                     out |= self.H(value)
-            for v in self.store_facts.get(name, []):
-                out |= self.reach(v)
+            for fld, v in self.store_facts.get(name, []):
+                if field is None or fld is None or fld == field:
+                    out |= self.reach(v)
             out.discard(FRESH)
             if out == before:
                 break
@@ -590,7 +602,11 @@ class FuncCtx:
         at = self.ty.expr(f, node)
         if at and at <= T.IMMUTABLE:
             return set()
-        return sub(self.R(base)) | sub(self.H(base))
+        if isinstance(base, ast.Name):
+            held = self._name_H(base.id, base, node.attr)
+        else:
+            held = self.H(base)
+        return sub(self.R(base), node.attr) | sub(held)
 
     # -- calls ------------------------------------------------------------------
     def argmap(self, call, callee, tg):
@@ -651,12 +667,26 @@ class FuncCtx:
             return sub(self.R(a[1])) | sub(self.H(a[1]))
         return self.R(a)
 
-    def _actual_H(self, a):
+    def _actual_H(self, a, fields=None):
         if a is None:
             return set()
         if isinstance(a, tuple):
             return self.H(a[1])
+        if isinstance(a, ast.Name) and fields:
+            out = set()
+            for fld in fields:
+                out |= self._name_H(a.id, a, fld)
+            return out
         return self.H(a)
+
+    def _retag(self, roots, fs):
+        out = set()
+        for r in roots:
+            if r == FRESH or r[0] == "sub":
+                out.add(r)
+            else:
+                out.add(("sub", r, fs))
+        return out
 
     def map_root(self, r, amap):
         """Callee root -> our roots (identity sense)."""
@@ -666,12 +696,14 @@ class FuncCtx:
             out = set()
             for a in amap.get(b[1], []):
                 if issub:
-                    out |= sub(self._actual_R(a)) | sub(self._actual_H(a))
+                    fs = r[2]
+                    out |= self._retag(self._actual_R(a), fs)
+                    out |= sub(self._actual_H(a, fs))
                 else:
                     out |= self._actual_R(a)
             return out
         if b[0] == "o" and b[1] == self.f.key:
-            return sub({b[2]}) if issub else {b[2]}
+            return self._retag({b[2]}, r[2]) if issub else {b[2]}
         return {r}
 
     def map_held(self, r, amap):
@@ -1008,7 +1040,8 @@ class FuncCtx:
         if isinstance(expr, ast.Attribute):
             return expr.value, expr.attr
         if isinstance(expr, ast.Name):
-            for kind, value, path in self.facts.get(expr.id, []):
+            facts, _ = self.ty.facts_at(self.f, expr.id, expr)
+            for kind, value, path in facts:
                 if kind == "expr" and not path and \
                         isinstance(value, (ast.Attribute, ast.Call)):
                     r = self._field_of(value, depth + 1)
@@ -1265,13 +1298,18 @@ def _is_fiber(types):
     return "Fiber" in types and not (types & T.IMMUTABLE)
 
 
-def _base_name(t):
+def _base_field(t):
+    """(name, first-level field) at the bottom of an attribute/subscript
+    chain: ``x.payloads[i].v`` -> ('x', 'payloads'); ``x[i]`` -> ('x', None)."""
     n = t
+    fld = None
     while isinstance(n, (ast.Attribute, ast.Subscript)):
+        if isinstance(n, ast.Attribute):
+            fld = n.attr
         n = n.value
     if isinstance(n, ast.Name):
-        return n.id
-    return None
+        return n.id, fld
+    return None, None
 
 
 _E = {}
